@@ -28,6 +28,20 @@ Theorem union_distinct_has_no_duplicates : forall seen vis rs i j ri rj,
 Proof. exact union_distinct_no_duplicates_proof. Qed.
 Print Assumptions union_distinct_has_no_duplicates.
 
+(* "each distinct row once", other half: distinct invents no row and loses none - every result row is one of
+   the stacked rows, and every stacked row (whose visible values equal themselves: the value domain of
+   DESIGN 4 has no NaN / error cell) has a result row with equal visible values (nulls compare equal) *)
+Theorem union_distinct_invents_no_row : forall seen vis rs r,
+  In r (dedup_rows seen vis rs) -> In r rs.
+Proof. exact union_distinct_subset_proof. Qed.
+Print Assumptions union_distinct_invents_no_row.
+
+Theorem union_distinct_keeps_every_distinct_row : forall vis rs r,
+  In r rs -> values_eqb (vis r) (vis r) = true ->
+  exists r', In r' (dedup_rows [] vis rs) /\ values_eqb (vis r) (vis r') = true.
+Proof. exact union_distinct_complete_nil_proof. Qed.
+Print Assumptions union_distinct_keeps_every_distinct_row.
+
 (* SQL: the transcription of the Union branch of SqlImpl.compile_ast - both operands compiled to complete
    SELECTs, the right select list put into the order of the left column NAMES (looked up among the right
    operand's visible columns), UNION [ALL], a fresh query over the compound selecting the left operand's
